@@ -7,6 +7,22 @@ CFG = {
                                    ("refill", "-mode refill -tier %s" % tier),
                                    ("random", "-mode random -tier %s" % tier)],
     "signatures": {},
-    "rule": "",
-    "assumptions": [],
+    "max_report": 1,
+    "rule": "Structures: list.Queue / list.Stack (block sizes 1,2,3,4,5,64; random also 7,8) and list.SoftQueue, int payloads, "
+            "EqualFunc in {==, equal mod 3, <= (asymmetric: pins the argument order)}. "
+            "exhaustive: every history of exactly n mutators (quick n=10, thorough n=13) over {add a fresh value, remove} with the full observer battery "
+            "(Size, IsEmpty, Peek, Contains of 0 = the zero value of unwritten cells, of every value added so far and of the next one; Values for the soft queue) "
+            "after EVERY step (so every shorter history and every interleaving of observers is covered as a prefix), then drained past empty and refilled; "
+            "dup: every history of n mutators (5/7) over {add 0, add 1, add 2, remove} under each EqualFunc with the battery after every step; "
+            "literal: every history of length n (5/7) over the property's own alphabet enqueue x | dequeue | peek | contains x, x in {1,2}; "
+            "refill: for every block size, add a, remove a|a-1|a-2, refill r, drain, refill nodeSize+1, drain, for all a,r in 0..2*nodeSize+2 "
+            "(the cursor is left at every offset of a block, including exactly on the boundary = the D18 situation); "
+            "random: long phase-structured histories (grow / shrink / oscillate / drain to empty) crossing block boundaries in both directions. "
+            "A queue/stack case is non-trivial when the model state shows at least one block allocation on a non-empty structure or refill after a boundary drain "
+            "AND at least one block release (front cursor advanced to the next block / to nil, top cursor dropped to the lower block); "
+            "a soft-queue case when it has >=2 enqueues and >=1 successful dequeue; distinct = distinct (header, op list).",
+    "assumptions": ["Go int arithmetic does not overflow (sizes and indices stay far below 2^62)",
+                    "make([]T, n) succeeds for the block sizes used (no out-of-memory)",
+                    "the EqualFunc is a pure total function (the theorems assume no other law: not reflexivity, not symmetry)",
+                    "the model's Contains loops run on fuel (cells of the heap / of the stack blocks); the refinement theorems prove the fuel is never exhausted"],
 }
